@@ -99,12 +99,14 @@ HIST = [
     ".riscv\n.org 0x100\naddi x1, x2, 5\njal x0, 0x100\n",
     ".msp430\n.org 0x100\n.db 1\n.bss\n.resb 4\n",
     ".arm\n.org 0x100\nmov r0, #1\nb 0x100\n",
+    ".68000\n.org 0x20000\nl:\nmove.l d0,d1\n.dw 0x1234\n.org 0x30010\n.db 1, 2, 3\n",
+    ".mips\n.org 0x20400\nmain:\naddiu $t1, $t0, 4\n.dc32 main\n",
 ]
 
 
 def _hist_work(seq):
     try:
-        res = inproc.asm_batch([(0, HIST[i]) for i in seq], flavour="asan", name="hist")
+        res = inproc.asm_batch([(4, HIST[i]) for i in seq], flavour="asan", name="hist")
         return seq, res[-1]
     except Exception as e:
         return seq, {"harness": "%s: %s" % (type(e).__name__, e)}
@@ -115,7 +117,8 @@ def canon(r):
         return ("none",)
     if "crash" in r:
         return ("crash", r["crash"])
-    return (r["status"], tuple(sorted(r["image"].items())), tuple(sorted((k, tuple(v)) for k, v in r["symbols"].items())))
+    return (r["status"], tuple(sorted(r["image"].items())), tuple(sorted((k, tuple(v)) for k, v in r["symbols"].items())),
+            tuple(sorted(r.get("files", {}).items())))
 
 
 # ------------------------------------------------------------------ (iii) pass-1 residue
@@ -218,7 +221,7 @@ def run(ctx):
         subsets = [(), ("-l",), ("-q",), ("-dump_symbols", "-dump_macros"), tuple(OPTS), ()]      # () twice = same configuration twice
     else:
         subsets = subsets + [()]
-    names = ["out.x", "outfile_without_dot"]
+    names = ["out.x", "outfile_without_dot", "dir1/prog", "dir.2/prog"]
     jobs = [(name, src, files, typ, subsets, names) for (name, src, files) in sd for typ in (TYPES if not q else TYPES[:4])]
     res = R.pmap(_opt_work, jobs, chunk=1, deadline=ctx.deadline)
     if len(res) < len(jobs):
